@@ -505,3 +505,33 @@ def fuzz_campaign(run: Run, replay_fn: Callable[[Run, dict, str], List[Tuple[str
             if p.poll() is None:
                 p.kill()
         shutil.rmtree(base, ignore_errors=True)
+
+
+class CpuBudgetExceeded(BaseException):
+    """Raised inside a guarded call when it has used more CPU time than its (very generous) budget."""
+
+
+class cpu_budget:
+    """Bound the CPU time (user time of this process: ITIMER_VIRTUAL, so load on the machine does not count) of a call that normally costs about a
+    millisecond. Used only where the property is about a call ending at all; the budget is four orders of magnitude above the normal cost and the
+    inputs are bounded in size, so reaching it means the call does not end in any practical sense. Main thread only."""
+
+    def __init__(self, seconds: float = 20.0) -> None:
+        self.seconds = seconds
+
+    def _fire(self, signum, frame):
+        raise CpuBudgetExceeded(f"more than {self.seconds} s of CPU time")
+
+    def __enter__(self):
+        import signal
+
+        self._old = signal.signal(signal.SIGVTALRM, self._fire)
+        signal.setitimer(signal.ITIMER_VIRTUAL, self.seconds)
+        return self
+
+    def __exit__(self, *a):
+        import signal
+
+        signal.setitimer(signal.ITIMER_VIRTUAL, 0)
+        signal.signal(signal.SIGVTALRM, self._old)
+        return False
